@@ -255,6 +255,7 @@ typedef struct {
 void fibre_verif_reset(void);
 void fibre_verif_snapshot(fibre_verif_snapshot_t *s);
 messageq_t *fibre_verif_atomic_runq(void);
+void *fibre_verif_taint_flags(void);
 #endif
 
 /*! @} */
